@@ -23,11 +23,15 @@ class Chooser:
 
     # -- core -------------------------------------------------------------
     muted = False          # muted: always the first outcome, nothing recorded (for set-up work that is not under exploration)
+    depth_limit = None     # only the first depth_limit CALLS (shuffle / sample / choice ... with a real choice) of a run are explored;
+                           # later calls take their first outcome
+    calls = 0
+    _in_late_call = False
 
     def pick(self, n: int, what: str = "choice") -> int:
         if n <= 0:
             raise IndexError("choice from an empty population")
-        if n == 1 or self.muted:
+        if n == 1 or self.muted or self._in_late_call:
             return 0
         if self.pos < len(self.script):
             k = self.script[self.pos]
@@ -43,6 +47,14 @@ class Chooser:
     def reset_run(self) -> None:
         self.pos = 0
         self.log = []
+        self.calls = 0
+        self._in_late_call = False
+
+    def _enter(self, real: bool) -> None:
+        """Start of one call of the random API; real: it has at least two distinct outcomes."""
+        if real and not self.muted:
+            self.calls += 1
+        self._in_late_call = self.depth_limit is not None and self.calls > self.depth_limit
 
     def advance(self) -> bool:
         """Move to the next leaf; False when the tree is exhausted."""
@@ -59,10 +71,12 @@ class Chooser:
 
     # -- the random-module API the implementation may use ---------------------
     def choice(self, seq):
+        self._enter(len(seq) > 1)
         return seq[self.pick(len(seq), "choice")]
 
     def shuffle(self, x) -> None:
         items = list(x)
+        self._enter(len({id(it) for it in items}) > 1)
         out = []
         while items:
             # distinct arrangements only: choose among distinct remaining objects
@@ -81,6 +95,7 @@ class Chooser:
 
     def sample(self, population, k, **_kw):
         items = list(population)
+        self._enter(k > 0 and len({id(it) for it in items}) > 1)
         out = []
         for _ in range(k):
             distinct = []
@@ -100,15 +115,19 @@ class Chooser:
         if stop is None:
             start, stop = 0, start
         vals = range(start, stop, step)
+        self._enter(len(vals) > 1)
         return vals[self.pick(len(vals), "randrange")]
 
     def randint(self, a, b):
+        self._enter(b > a)
         return a + self.pick(b - a + 1, "randint")
 
     def random(self):
+        self._enter(True)
         return (0.25, 0.75)[self.pick(2, "random")]
 
     def getrandbits(self, k):
+        self._enter(k > 0)
         return self.pick(2 ** k, "getrandbits")
 
     def __getattr__(self, name):  # anything else: not enumerable
@@ -162,10 +181,11 @@ def muted():
         ch.muted = old
 
 
-def explore(jp_pkg, fn: Callable[[], Any], cap: int = 50000, stop=None) -> Tuple[List[Any], bool, int]:
+def explore(jp_pkg, fn: Callable[[], Any], cap: int = 50000, stop=None, depth_limit=None) -> Tuple[List[Any], bool, int]:
     """Run fn under every outcome of every random choice.  Returns (results, complete, runs).
     `stop(result)` true ends the exploration at once (a run that did not terminate: its choice script is unbounded)."""
     ch = Chooser()
+    ch.depth_limit = depth_limit
     results = []
     runs = 0
     CURRENT.append(ch)
